@@ -2433,16 +2433,30 @@ class op(object):
             len(equalities) <= 1:
             v = variables[0]
 
-            if lin_ineqs: G = lin_ineqs[0]._f._linear._coeff[v]
+            # The coefficients must be full matrices (a scalar or row 
+            # coefficient stands for a matrix that still has to be
+            # formed), and v must occur in the objective and in every
+            # constraint.
+            c = objective._linear._coeff.get(v, None)
+            inmatrixform = c is not None and c.size == (1,len(v))
+
+            if lin_ineqs: 
+                G = lin_ineqs[0]._f._linear._coeff.get(v, None)
+                if G is None or G.size != (len(lin_ineqs[0]), len(v)):
+                    inmatrixform = False
             else: G = None
 
-            if equalities: A = equalities[0]._f._linear._coeff[v]
+            if equalities: 
+                A = equalities[0]._f._linear._coeff.get(v, None)
+                if A is None or A.size != (len(equalities[0]), len(v)):
+                    inmatrixform = False
             else: A = None
 
-            if (format == 'dense' and (G is None or _isdmatrix(G)) and 
+            if inmatrixform and (
+                (format == 'dense' and (G is None or _isdmatrix(G)) and 
                 (A is None or _isdmatrix(A))) or \
                 (format == 'sparse' and (G is None or _isspmatrix(G)) 
-                and (A is None or _isspmatrix(A))):  
+                and (A is None or _isspmatrix(A)))):  
                 return None
 
 
@@ -2610,11 +2624,22 @@ class op(object):
             mmap[i] = constraints[0].multiplier[islc[i]]
 
         for i in  pwl_ineqs:
+            # The multiplier of i is the sum of the multipliers of the
+            # linear inequalities it was replaced with.  A piece with 
+            # another length than i stands for a scalar inequality (or 
+            # several of them): its multipliers are added up and 
+            # assigned to one component of i, not broadcast to all.
             mmap[i] = _function()
             for c in pwl_ineqs[i]:
-                mmap[i] = mmap[i] + constraints[0].multiplier[islc[c]]
-            if len(i) == 1 != len(mmap[i]):
-                mmap[i] = sum(mmap[i])
+                mc = constraints[0].multiplier[islc[c]]
+                if len(c) == len(i):
+                    mmap[i] = mmap[i] + mc
+                elif len(i) == 1:
+                    mmap[i] = mmap[i] + sum(mc)
+                else:
+                    e0 = matrix(0.0, (len(i),1))
+                    e0[0] = 1.0
+                    mmap[i] = mmap[i] + e0 * sum(mc)
 
         for e in  equalities:
             mmap[e] = constraints[1].multiplier[eslc[e]]
@@ -2649,7 +2674,8 @@ class op(object):
         if not variables: 
             raise TypeError('lp must have at least one variable')
         x = variables[0]
-        c = lp1.objective._linear._coeff[x]
+        c = lp1.objective._linear._coeff.get(x, None)
+        if c is None: c = matrix(0.0, (1,len(x)))
         if _isspmatrix(c): c = matrix(c, tc='d')
 
         inequalities = lp1._inequalities
